@@ -4,6 +4,7 @@ package discov
 
 import (
 	"fmt"
+	"google.golang.org/grpc/connectivity"
 	"sort"
 	"strings"
 	"testing"
@@ -30,9 +31,9 @@ func TestZsimC15(t *testing.T) {
 		Run:      c15Run,
 		Horizon:  2 * time.Hour,
 		MaxSteps: 200000,
-		Rule:     "histories of key puts/deletes under a prefix (a key keeps one value for life, values may be shared), each delivered by the watch (single or batched) or swallowed by a disconnection and only visible in the next reload snapshot; broken watches (closed channel, cancelled, compacted) that are re-established with re-delivery; Get errors during load; 1-3 subscribers (normal/exclusive) attached at drawn times; non-trivial = at least one disconnection+reload or broken watch happened; distinct = distinct event-log fingerprint",
-		Real:     []string{"lib/discov/internal Registry + cluster (instrumented)", "lib/discov Subscriber + container", "lib/threading.RoutineGroup", "lib/syncx.ResourceManager"},
-		Stub:     []string{"EtcdClient (scripted model store with revisions, watch delivery, faults)", "connection-state listener (reload is invoked directly)"},
+		Rule:     "histories of key puts/deletes under a prefix (a key keeps one value for life, values may be shared), each delivered by the watch (single or batched) or swallowed by a disconnection and only visible in the next reload snapshot; broken watches (closed channel, cancelled, compacted) that are re-established with re-delivery; Get errors during load; 1-4 subscribers (normal/exclusive) attached at drawn times, in a third of the runs 2-3 of them at once while the initial Get is in flight; in half of the runs the registry dials through a seam at NewClient (1-2 failed dials first, callers retry) and the real stateWatcher follows a scripted connection (Ready -> TransientFailure -> Ready triggers the real reload), in the others the client is pre-registered and reload is called directly; changes also fall into the gap between a broken watch and its re-establishment; non-trivial = at least one disconnection+reload or broken watch happened; distinct = distinct event-log fingerprint",
+		Real:     []string{"lib/discov/internal Registry + cluster + stateWatcher (instrumented)", "lib/discov Subscriber + container", "lib/threading.RoutineGroup", "lib/syncx.ResourceManager"},
+		Stub:     []string{"EtcdClient (scripted model store with revisions, watch delivery, faults)", "grpc connection state (scripted Ready/TransientFailure sequence watched by the real stateWatcher; in half of the runs reload is invoked directly)", "etcd dialling (NewClient seam returns the stub or a dial error)"},
 	})
 }
 
@@ -49,7 +50,19 @@ func c15Run(r *zsim.Run) {
 	o, f := r.Ops, r.Fault
 	etcd := internal.NewZsimEtcd(r)
 	endpoints := []string{"etcd-1:2379"}
-	etcd.ZsimRegister(endpoints)
+	// half of the runs go through the registry's own dialling and connection-state watcher (seams at
+	// NewClient and at the watched connection), the others pre-register the client and call reload directly
+	seamed := o.Intn(2) == 0
+	dialFaults, subErrs := 0, 0
+	if seamed {
+		etcd.ZsimUseSeams()
+		if f.Intn(3) == 0 {
+			dialFaults = 1 + f.Intn(2) // etcd is not reachable when the first subscribers start
+			etcd.DialFaults = dialFaults
+		}
+	} else {
+		etcd.ZsimRegister(endpoints)
+	}
 	prefixes := []string{"svc.rpc", "svc.aux"}[:1+o.Intn(2)]
 	// same-value keys only when no exclusive subscriber is used (their order of arrival from a snapshot is not defined)
 	useExclusive := o.Intn(3) == 0
@@ -88,6 +101,7 @@ func c15Run(r *zsim.Run) {
 		}
 		return true
 	}
+	together := false // several first subscribers at once: deliveries of one load are still in flight when another returns
 	attach := func() bool {
 		ex := useExclusive && o.Intn(2) == 0
 		var opts []SubOption
@@ -95,17 +109,30 @@ func c15Run(r *zsim.Run) {
 			opts = append(opts, Exclusive())
 		}
 		prefix := prefixes[o.Intn(len(prefixes))]
-		s, err := NewSubscriber(endpoints, prefix, opts...)
-		if err != nil {
-			r.Failf("subscribe-error", "NewSubscriber: %v", err)
-			return false
+		var s *Subscriber
+		for {
+			var err error
+			s, err = NewSubscriber(endpoints, prefix, opts...)
+			if err == nil {
+				break
+			}
+			// concurrent callers share one dial attempt, so a failed dial may fail several of them
+			subErrs++
+			if dialFaults == 0 || subErrs > 4*dialFaults {
+				r.Failf("subscribe-error", "NewSubscriber: %v", err)
+				return false
+			}
+			// the caller retries once etcd can be reached
+			r.Logf("NewSubscriber failed (%v), retrying", err)
+			r.Probe("subscribe_retried_after_dial_error")
+			zsim.Sleep(time.Second)
 		}
 		cs := &c15Sub{s: s, prefix: prefix, exclusive: ex}
 		s.AddListener(func() { cs.changes++ })
 		subs = append(subs, cs)
 		r.Logf("subscriber %d attached to %s exclusive=%v", len(subs)-1, prefix, ex)
 		// a subscriber that joins sees the current set at once
-		if etcd.Connected {
+		if etcd.Connected && !together {
 			got := append([]string(nil), s.Values()...)
 			sort.Strings(got)
 			want := expected(prefix, ex)
@@ -145,7 +172,28 @@ func c15Run(r *zsim.Run) {
 	for i := 0; i < o.Intn(3); i++ {
 		mutate()
 	}
-	if !attach() {
+	if o.Intn(3) == 0 {
+		// the first subscribers arrive together while the initial Get is still on its way
+		etcd.GetDelay = 50 * time.Millisecond
+		together = true
+		n, done := 2+o.Intn(2), 0
+		for i := 0; i < n; i++ {
+			r.Go(fmt.Sprintf("attach%d", i), func() {
+				attach()
+				done++
+			})
+		}
+		if !r.WaitFor(time.Minute, 10*time.Millisecond, func() bool { return done == n }) {
+			r.Failf("subscribe-blocked", "concurrent NewSubscriber calls did not return: %v", r.Alive(false))
+			return
+		}
+		etcd.GetDelay = 0
+		together = false
+		r.Probe("concurrent_first_subscribers")
+		if r.Failed() {
+			return
+		}
+	} else if !attach() {
 		return
 	}
 	r.Quiesce()
@@ -179,19 +227,38 @@ func c15Run(r *zsim.Run) {
 			if f.Intn(4) == 3 {
 				etcd.GetFaults = 1 + f.Intn(2)
 			}
+			if seamed {
+				etcd.Conn.Set(connectivity.TransientFailure)
+				r.Quiesce() // the state watcher has seen the failure
+			}
 			etcd.Connected = true
-			done := false
-			r.Go("reload", func() { etcd.ZsimReload(endpoints); done = true })
 			r.Logf("disconnected, %d unseen changes, reconnected -> reload", n)
-			if !r.WaitFor(time.Minute, 100*time.Millisecond, func() bool { return done }) {
-				r.Failf("reload-blocked", "reload did not finish: %v", r.Alive(false))
-				return
+			if seamed {
+				gets := etcd.Gets
+				etcd.Conn.Set(connectivity.Ready)
+				if !r.WaitFor(time.Minute, 100*time.Millisecond, func() bool { return etcd.Gets > gets }) {
+					r.Failf("no-reload-after-reconnect", "the connection became ready again but the cluster did not reload its keys")
+					return
+				}
+				r.Probe("reload_via_state_watcher")
+			} else {
+				done := false
+				r.Go("reload", func() { etcd.ZsimReload(endpoints); done = true })
+				if !r.WaitFor(time.Minute, 100*time.Millisecond, func() bool { return done }) {
+					r.Failf("reload-blocked", "reload did not finish: %v", r.Alive(false))
+					return
+				}
 			}
 			zsim.Sleep(5 * time.Second) // Get retries after errors
 		case f.Intn(7) == 6: // a watch breaks and is re-established from the loaded revision (re-delivery)
 			if etcd.BreakWatch(f.Intn(4), f.Intn(3)) {
 				r.FaultFired("watch-broken")
 				r.Logf("broke a watch")
+				// changes that fall into the gap before the watch is re-established
+				for j := o.Intn(3); j > 0; j-- {
+					mutate()
+					r.Probe("change_while_watch_broken")
+				}
 			}
 		case o.Intn(5) == 4 && len(subs) < 4:
 			if !attach() {
